@@ -8,6 +8,7 @@ import (
 	"go/token"
 	"go/types"
 	"math/big"
+	"sort"
 	"strings"
 )
 
@@ -627,6 +628,7 @@ type pureInfo struct {
 	paramVars []*Term
 	heapVars  []*Term
 	body      *Term // template over paramVars/heapVars
+	axiom     *Term
 }
 
 func (e *Env) pureEnvPkg(pf *PureFunc) *types.Package {
@@ -654,7 +656,7 @@ func (e *Env) pureCall(pf *PureFunc, x SCall) SVal {
 		args = append(args, v)
 	}
 	retTyp := pe.parseType(pf.Ret)
-	if pf.Body != nil && !pf.Recursive {
+	if pf.Body != nil && !pf.Recursive && !pf.Opaque {
 		// macro expansion in the current state
 		if e.depth > 40 {
 			efail("pure function expansion too deep (%s)", pf.Name)
@@ -740,6 +742,41 @@ func (p *Program) pureSymbol(pf *PureFunc, pe *Env) *pureInfo {
 	TB.funOrd = append(TB.funOrd, info.symbol)
 	info.ready = true
 	return info
+}
+
+// opaqueAxioms: pattern-guarded definitional axioms of the opaque (non-recursive)
+// spec functions among ops.
+func (p *Program) opaqueAxioms(ops map[string]bool) []*Term {
+	var out []*Term
+	var names []string
+	for n := range p.pureDecl {
+		names = append(names, n)
+	}
+	sort.Strings(names)
+	for _, n := range names {
+		info := p.pureDecl[n]
+		if !info.pf.Opaque || info.body == nil || !ops[info.symbol] {
+			continue
+		}
+		if info.axiom == nil {
+			m := map[*Term]*Term{}
+			var bound []*Term
+			for _, pv := range info.paramVars {
+				b := BVar("a", pv.Sort)
+				m[pv] = b
+				bound = append(bound, b)
+			}
+			for _, hv := range info.heapVars {
+				b := BVar("H", hv.Sort)
+				m[hv] = b
+				bound = append(bound, b)
+			}
+			app := App(info.symbol, sortOf(info.retTyp), bound...)
+			info.axiom = Forall(bound, Eq(app, Subst(info.body, m)), []*Term{app})
+		}
+		out = append(out, info.axiom)
+	}
+	return out
 }
 
 // unfoldDefs returns, for every ground application of a recursive pure
